@@ -63,11 +63,12 @@ impl Check for C10 {
             let no = g.range(1, 6);
             let opens: Vec<Value> = (0..no)
                 .map(|_| {
-                    let kind = *g.pick(&["ok", "ok", "err", "never", "twice", "unknown_first", "kill", "alert", "late_ok", "edge_ok"]);
+                    let kind = *g.pick(&["ok", "ok", "err", "never", "twice", "unknown_first", "kill", "alert", "wcut", "late_ok", "edge_ok"]);
                     let at_ms = match kind {
                         "late_ok" => g.range(30_300, 40_000),
                         "edge_ok" => *g.pick(&[29_700u64, 29_990, 30_000, 30_010, 30_300]),
                         "kill" | "alert" => g.range(0, 29_000),
+                        "wcut" => *g.pick(&[0u64, 1, 5, 100, 2_000]),
                         _ => *g.pick(&[0u64, 0, 1, 100, 5_000, 29_000]),
                     };
                     json!({"kind": kind, "at_ms": at_ms, "start_ms": *g.pick(&[0u64, 0, 0, 1, 10, 3_000]), "via": *g.pick(&["direct", "direct", "socks5", "http"])})
@@ -115,7 +116,7 @@ impl Check for C10 {
         out
     }
     fn rule(&self) -> &'static str {
-        "one case = (real mode) 1-6 possibly concurrent requests through create_proxy_stream / SOCKS5 / HTTP CONNECT to 1-4 hosts whose targets accept (after 0-14 s or after more than 15 s), refuse (at once or late) or black-hole and whose names resolve, resolve slowly, fail, are unknown or hang; or (script mode) 1-6 racing opens against a scripted TLS server answering each open with an empty SYNACK at 0..29 s / around 30 s +-300 ms / after 30 s, an error text, twice, for an unknown id first, never, or by killing the session at a seeded instant; oracle on virtual time, the simulated network's connect log and every byte the local application receives; every case is non-trivial; distinct = distinct (plan hash, poll-order fingerprint)"
+        "one case = (real mode) 1-6 possibly concurrent requests through create_proxy_stream / SOCKS5 / HTTP CONNECT to 1-4 hosts whose targets accept (after 0-14 s or after more than 15 s), refuse (at once or late) or black-hole and whose names resolve, resolve slowly, fail, are unknown or hang; or (script mode) 1-6 racing opens against a scripted TLS server answering each open with an empty SYNACK at 0..29 s / around 30 s +-300 ms / after 30 s, an error text, twice, for an unknown id first, never, by killing the session at a seeded instant (connection cut, fatal alert), or by breaking the connection for the client's writes only (the next write on that session fails: the SYN of a later open that reuses it); oracle on virtual time, the simulated network's connect log and every byte the local application receives; every case is non-trivial; distinct = distinct (plan hash, poll-order fingerprint)"
     }
     fn real_components(&self) -> Vec<&'static str> {
         vec!["Client::create_proxy_stream (30 s SYNACK wait), session pool", "SOCKS5 and HTTP front-ends (reply / status)", "Session (client)", "real mode: Server::listen, TcpProxyHandler (15 s connect timeout, SYNACK with reason), resolve_host_with_cache (10 s)", "rustls both ways"]
@@ -368,7 +369,8 @@ async fn script_server(opens: Vec<Value>, recv_log: Arc<Mutex<Vec<(usize, u64)>>
     };
     let acceptor = crate::fixtures::acceptor("a");
     loop {
-        let Ok((tcp, _)) = listener.accept().await else { return };
+        let Some(inc) = listener.accept_incoming().await else { return };
+        let (tcp, conn) = (inc.stream, inc.conn);
         let (acceptor, opens, recv_log) = (acceptor.clone(), opens.clone(), recv_log.clone());
         anytls_simnet::spawn(async move {
             let Ok(tls) = acceptor.accept(tcp).await else { return };
@@ -426,6 +428,14 @@ async fn script_server(opens: Vec<Value>, recv_log: Arc<Mutex<Vec<(usize, u64)>>
                         anytls_simnet::spawn(async move {
                             sleep(Duration::from_millis(spec["at_ms"].as_u64().unwrap_or(0))).await;
                             let kind = spec["kind"].as_str().unwrap_or("ok").to_string();
+                            if kind == "wcut" {
+                                // the connection breaks for the client's writes only: its next write on this session
+                                // fails — typically the SYN of a later open that reuses the session, or a keep-alive
+                                if let Some(c) = world::with(|w| w.net.conns.get(conn).cloned()).flatten() {
+                                    c.fwd.set_write_fault(c.fwd.total_written(), std::io::ErrorKind::BrokenPipe);
+                                }
+                                return;
+                            }
                             let mut g = wr2.lock().await;
                             if kind == "kill" {
                                 // the session dies: drop the TLS writer and with it the connection
@@ -487,7 +497,7 @@ async fn run_script(plan: &Value) -> Outcome {
     let rl = recv_log.lock().unwrap().clone();
     // a kill takes down every open that shares the TLS connection; which opens share one is the pool's
     // business (C13), so here a killed session only relaxes the verdicts of the *other* opens
-    let any_kill = opens.iter().any(|o| o["kind"] == "kill" || o["kind"] == "alert");
+    let any_kill = opens.iter().any(|o| o["kind"] == "kill" || o["kind"] == "alert" || o["kind"] == "wcut");
     for (i, o) in opens.iter().enumerate() {
         let rr = &results[i];
         let kind = o["kind"].as_str().unwrap_or("ok");
@@ -509,7 +519,7 @@ async fn run_script(plan: &Value) -> Outcome {
             out.viol("late-completion", format!("late-completion:{}:{}", via, kind), format!("open #{} completed {} ms after the server got the destination", i, rel / 1000));
         }
         let edge = at >= 29_700_000 && at <= 30_300_000;
-        let other_kill_possible = any_kill && kind != "kill" && kind != "alert";
+        let other_kill_possible = any_kill && kind != "kill" && kind != "alert" && kind != "wcut";
         match kind {
             "ok" | "twice" | "unknown_first" | "edge_ok" | "late_ok" => {
                 let should_ok = at < 29_700_000;
@@ -538,6 +548,13 @@ async fn run_script(plan: &Value) -> Outcome {
                     out.viol("ok-without-connect", format!("ok-without-answer:{}", via), format!("open #{} reported success although no SYNACK was ever sent", i));
                 } else if rel < 29_000_000 && !other_kill_possible {
                     out.viol("failure-unexpected", format!("early-timeout:{}", via), format!("open #{} gave up after {} ms although the wait is 30 s", i, rel / 1000));
+                }
+            }
+            "wcut" => {
+                // no SYNACK is ever sent for this open: it fails, by the session's death (its next write) or by
+                // the 30 s wait, whichever comes first
+                if rr.ok {
+                    out.viol("ok-without-connect", format!("ok-without-answer:{}", via), format!("open #{} reported success although no SYNACK was ever sent", i));
                 }
             }
             "kill" | "alert" => {
